@@ -448,6 +448,13 @@ pub fn enumerate(specs: &[Specimen], seed: u64, tier: Tier, only_covered: bool) 
                 }
             }
             if only_covered {
+                // two positions at once: the check kind byte of a pack (1 -> 0, its block's CRC left as it is) and a byte of that
+                // pack's data: the check block no longer verifies, so the hash it names cannot be "no hash"
+                for cb in view.spans.iter().filter(|sp| sp.check_block && sp.pack != usize::MAX) {
+                    if let Some(data) = view.spans.iter().find(|sp| sp.pack == cb.pack && sp.name.starts_with("cluster data") && sp.end > sp.start) {
+                        cases.push((si, Damage::Multi { file: fi, flips: vec![(cb.start, 0x01), (data.start + (data.end - data.start) / 2, 0x40)] }));
+                    }
+                }
                 // CRC-consistent alterations: one byte of a CRC-protected block and the block's CRC refreshed
                 for (bstart, blen) in &view.blocks {
                     if *blen == 0 {
@@ -668,6 +675,16 @@ pub fn run_for(desc: &Value, ctx: &Ctx, oracle: Oracle) -> CaseOut {
     };
     // the specimen with the very long content table is dumped on a sample of its contents: always include the content whose
     // table entry holds the first altered byte (4 bytes per content), so that what the reader makes of that entry is observed
+    // half of the cases ask for the checks before anything else is read (a check must not change what later reads verify)
+    let early_plan;
+    let plan = if u64::from_str_radix(&out.fp[8..16], 16).unwrap_or(0) % 2 == 0 {
+        let mut p = plan.clone();
+        p.checks_first = true;
+        early_plan = p;
+        &early_plan
+    } else {
+        plan
+    };
     let aimed_plan;
     let plan = if s.plan.addrs.len() < s.content_count && structure == "content table" && !matches!(d, Damage::Refit { .. }) {
         let mut p = plan.clone();
